@@ -28,6 +28,14 @@ type c14Req struct {
 	Copy        bool     `json:"copy,omitempty"`       // the handler streams the body with io.Copy instead of Read calls
 	Nested      *c14Req  `json:"nested,omitempty"`     // served by the handler, on the same application, ...
 	NestAfter   int      `json:"nest_after,omitempty"` // ... before its read number NestAfter
+	// Errs[i] = 2: the underlying reader hands out chunk i together with a (temporary) error and goes on with
+	// chunk i+1 at the next call (io.Reader allows data and error in one answer; timeouts are not terminal)
+	Errs []int `json:"errs,omitempty"`
+	// Persist: the handler goes on reading after an error (bufio.Reader forgets an error once it has reported it)
+	Persist bool `json:"persist,omitempty"`
+	// Bind: the handler consumes the body with the framework's binder (json.Decoder chooses the read sizes);
+	// the body is then a JSON string literal
+	Bind bool `json:"bind,omitempty"`
 }
 
 type c14Case struct {
@@ -35,6 +43,7 @@ type c14Case struct {
 	LimitStr string   `json:"limit_str"`
 	Inner    int64    `json:"inner,omitempty"` // limit of the second instance on the route /inner ("" = no such route)
 	InnerStr string   `json:"inner_str,omitempty"`
+	Debug    bool     `json:"debug,omitempty"` // Echo.Debug: the limit and its error are no matter of the mode the application runs in
 	Reqs     []c14Req `json:"reqs"`
 }
 
@@ -47,6 +56,7 @@ var errC14Other = errors.New("underlying reader failed")
 
 type c14Reader struct {
 	chunks      [][]byte
+	errs        []int // parallel to chunks (may be shorter)
 	final       int
 	eofWithLast bool
 	log         []c14Resp
@@ -66,13 +76,20 @@ func (r *c14Reader) Read(b []byte) (int, error) {
 	}
 	c := r.chunks[0]
 	n := copy(b, c)
+	var err error
+	code := 0
 	if n < len(c) {
 		r.chunks[0] = c[n:]
 	} else {
+		// an empty chunk is an answer (0, nil): "nothing happened", legal for an io.Reader
 		r.chunks = r.chunks[1:]
+		if len(r.errs) > 0 {
+			if r.errs[0] == 2 {
+				err, code = errC14Other, 2
+			}
+			r.errs = r.errs[1:]
+		}
 	}
-	var err error
-	code := 0
 	if len(r.chunks) == 0 && r.eofWithLast {
 		err = r.finalErr()
 		code = r.final
@@ -118,6 +135,25 @@ func c14EncResps(l []c14Resp) string {
 	return strings.Join(parts, " ")
 }
 
+// c14Recorder sits between the handler's consumer (the binder) and the body the middleware installed: it
+// records what every read returned
+type c14Recorder struct {
+	body  io.ReadCloser
+	seen  []c14Resp
+	first error // the first over-limit error a read reported
+}
+
+func (r *c14Recorder) Read(b []byte) (int, error) {
+	n, err := r.body.Read(b)
+	cl := c14ErrClass(err)
+	r.seen = append(r.seen, c14Resp{append([]byte(nil), b[:n]...), cl})
+	if cl == 3 && r.first == nil {
+		r.first = err
+	}
+	return n, err
+}
+func (r *c14Recorder) Close() error { return r.body.Close() }
+
 var c14Methods = []string{"POST", "PUT", "PATCH", "DELETE", "GET", "PROPFIND", "REPORT", "X-BULK", "HEAD", "OPTIONS"}
 
 type c14Sink struct{ chunks [][]byte }
@@ -134,6 +170,9 @@ type c14State struct {
 	seen    []c14Resp
 	ran     bool
 	sub     func(*c14Req) // serves a nested request on the same application
+	ret413  bool          // the handler returned the over-limit error a read gave it
+	bound   string        // Bind mode: the value the binder produced
+	bindErr int           // Bind mode: 0 = bound, 3 = failed with an *echo.HTTPError of status 413, 2 = failed otherwise
 }
 
 type c14Key struct{}
@@ -141,16 +180,20 @@ type c14Key struct{}
 // c14Served is one request as it was served: the request, what the underlying reader answered,
 // what the handler saw, the status.
 type c14Served struct {
-	rq   *c14Req
-	log  []c14Resp
-	seen []c14Resp
-	ran  bool
-	code int
+	rq      *c14Req
+	log     []c14Resp
+	seen    []c14Resp
+	ran     bool
+	code    int
+	ret413  bool
+	bound   string
+	bindErr int
 }
 
 func c14Run(ci any) Result {
 	c := ci.(*c14Case)
 	e := echo.New()
+	e.Debug = c.Debug
 	if c.Limit%3 == 2 && len(c.Reqs)%2 == 0 {
 		e.Pre(middleware.BodyLimit(c.LimitStr)) // installed before the router
 	} else if len(c.Reqs)%2 == 0 {
@@ -164,6 +207,46 @@ func c14Run(ci any) Result {
 		st.ran = true
 		body := ctx.Request().Body
 		ret := error(nil)
+		defer func() { st.ret413 = ret != nil }()
+		if st.rq.Bind {
+			if st.rq.Nested != nil {
+				st.sub(st.rq.Nested)
+			}
+			rec := &c14Recorder{body: body}
+			ctx.Request().Body = rec
+			var v any
+			err := (&echo.DefaultBinder{}).BindBody(ctx, &v)
+			st.seen = rec.seen
+			switch t := v.(type) {
+			case string:
+				st.bound = t
+			case []any:
+				if len(t) == 1 {
+					st.bound, _ = t[0].(string)
+				}
+			}
+			if err != nil {
+				st.bindErr = 2
+				// the way echo itself recognises an error that carries a status: by its type
+				if he, ok := err.(*echo.HTTPError); ok && he.Code == http.StatusRequestEntityTooLarge {
+					st.bindErr = 3
+					ret = err
+				}
+			}
+			if ret == nil && rec.first != nil {
+				ret = rec.first // the decoder had what it needed and dropped the error: the handler passes it on
+			}
+			if st.rq.Close {
+				rec.Close()
+			}
+			if ret != nil {
+				return ret
+			}
+			if err != nil {
+				return err
+			}
+			return ctx.NoContent(200)
+		}
 		if st.rq.Copy {
 			// the handler streams the body with io.Copy (which prefers the source's WriteTo, if it has one)
 			if st.rq.Nested != nil {
@@ -205,10 +288,12 @@ func c14Run(ci any) Result {
 			}
 			st.seen = append(st.seen, c14Resp{append([]byte(nil), buf[:n]...), c14ErrClass(err)})
 			if err != nil {
-				if c14ErrClass(err) == 3 {
+				if c14ErrClass(err) == 3 && ret == nil {
 					ret = err
 				}
-				break
+				if !st.rq.Persist {
+					break
+				}
 			}
 		}
 		if st.rq.Nested != nil && st.rq.NestAfter >= len(st.rq.Reads) {
@@ -226,6 +311,7 @@ func c14Run(ci any) Result {
 		// the application wrapped its handler once (mw(handler)) instead of handing the middleware to echo: the
 		// per-chain state of the middleware is then shared by all requests, also by overlapping (nested) ones
 		e = echo.New()
+		e.Debug = c.Debug
 		e.Match(c14Methods, "/", middleware.BodyLimit(c.LimitStr)(h))
 		if c.InnerStr != "" {
 			e.Match(c14Methods, "/inner", middleware.BodyLimit(c.LimitStr)(h), middleware.BodyLimit(c.InnerStr))
@@ -243,7 +329,7 @@ func c14Run(ci any) Result {
 		for _, ch := range rq.Chunks {
 			chunks = append(chunks, append([]byte(nil), ch...))
 		}
-		rd := &c14Reader{chunks: chunks, final: rq.Final, eofWithLast: rq.EOFWithLast}
+		rd := &c14Reader{chunks: chunks, errs: append([]int(nil), rq.Errs...), final: rq.Final, eofWithLast: rq.EOFWithLast}
 		path := "/"
 		if rq.Inner && c.InnerStr != "" {
 			path = "/inner"
@@ -262,6 +348,9 @@ func c14Run(ci any) Result {
 		case 2:
 			req.Header.Set("Content-Encoding", "gzip")
 			req.Header.Set("Transfer-Encoding", "chunked")
+		}
+		if rq.Bind {
+			req.Header.Set("Content-Type", "application/json; charset=utf-8")
 		}
 		req = req.WithContext(context.WithValue(req.Context(), c14Key{}, st))
 		req.Body = rd
@@ -289,7 +378,7 @@ func c14Run(ci any) Result {
 				st.seen = append(st.seen, c14Resp{all, 2}) // the sink got other bytes than the body reader served
 			}
 		}
-		served[idx] = c14Served{rq: rq, log: rd.log, seen: st.seen, ran: st.ran, code: rec.Code}
+		served[idx] = c14Served{rq: rq, log: rd.log, seen: st.seen, ran: st.ran, code: rec.Code, ret413: st.ret413, bound: st.bound, bindErr: st.bindErr}
 	}
 	for i := range c.Reqs {
 		serve(&c.Reqs[i])
@@ -331,7 +420,10 @@ func c14Run(ci any) Result {
 		if !sv.ran {
 			obs = append(obs, "0")
 		} else {
-			obs = append(obs, "1", c14EncResps(sv.seen))
+			obs = append(obs, "1", c14EncResps(sv.seen), wBool(sv.code == http.StatusRequestEntityTooLarge))
+		}
+		if c.Debug {
+			tags = append(tags, "debug-mode")
 		}
 		// model-free oracle
 		if rq.Declared > limit {
@@ -347,6 +439,49 @@ func c14Run(ci any) Result {
 		}
 		cum := int64(0)
 		saw413 := false
+		// "gets a 413 error": an error that echo answers with status 413 when the handler hands it back
+		if sv.ret413 && sv.code != http.StatusRequestEntityTooLarge {
+			fail(i, fmt.Sprintf("the handler returned the error its read past the limit of %d gave it, and the response status is %d: not a 413 error", limit, sv.code))
+		}
+		if rq.Bind && rq.Declared != 0 {
+			tags = append(tags, "binder-reads")
+			plain := rq.Final == 1
+			for _, x := range rq.Errs {
+				plain = plain && x == 0
+			}
+			var all []byte
+			for _, ch := range rq.Chunks {
+				all = append(all, ch...)
+			}
+			want := ""
+			if len(all) >= 4 && all[0] == '[' {
+				want = string(all[2 : len(all)-2])
+			} else if len(all) >= 2 {
+				want = string(all[1 : len(all)-1])
+			}
+			switch {
+			case sv.bindErr == 0 && sv.bound != want:
+				fail(i, "the binder produced another value than the body carries")
+			case sv.bindErr == 0 && int64(len(all)) > limit:
+				tags = append(tags, "binder-done-before-error")
+			case sv.bindErr != 0 && plain && int64(len(all)) <= limit:
+				fail(i, fmt.Sprintf("a well-formed body of %d <= %d bytes was not delivered to the binder unchanged (binding failed)", len(all), limit))
+			case sv.bindErr == 2 && plain:
+				fail(i, fmt.Sprintf("binding a well-formed body of %d > %d bytes failed, but not with a 413 error", len(all), limit))
+			}
+		}
+		if rq.Persist {
+			tags = append(tags, "reads-on-after-error")
+		}
+		for k, a := range sv.log {
+			if len(a.data) == 0 && a.err == 0 && k < len(sv.seen) && len(rq.Reads) > k && (rq.Copy || rq.Bind || rq.Reads[k] > 0) {
+				tags = append(tags, "reader-answers-nothing")
+				break
+			}
+		}
+		if rq.Errs != nil {
+			tags = append(tags, "reader-temporary-error")
+		}
 		for k, s := range sv.seen {
 			cum += int64(len(s.data))
 			if s.err == 3 {
@@ -409,7 +544,10 @@ func c14Run(ci any) Result {
 	return Result{Ops: strings.Join(ops, " "), Obs: strings.Join(obs, " "), Oracle: oracle, Tags: tags, Nontrivial: nontrivial}
 }
 
-func c14GenReq(r *rand.Rand, L int64) c14Req {
+func c14GenReq(r *rand.Rand, L int64) c14Req { return c14GenReqK(r, L, false) }
+
+// c14GenReqK: bind = the body is a JSON string literal and the handler consumes it with the binder
+func c14GenReqK(r *rand.Rand, L int64, bind bool) c14Req {
 	var n int64
 	switch r.Intn(8) {
 	case 0:
@@ -433,18 +571,57 @@ func c14GenReq(r *rand.Rand, L int64) c14Req {
 	if n > 6000 {
 		n = 6000
 	}
+	if bind && n < 2 {
+		n = 2
+	}
 	body := make([]byte, n)
 	for i := range body {
 		body[i] = byte(r.Intn(256))
+		if bind {
+			body[i] = "abcdefghijklmnopqrstuvwxyz0123456789 "[r.Intn(37)]
+		}
 	}
 	var rq c14Req
+	if bind {
+		rq.Bind = true
+		body[0], body[n-1] = '"', '"'
+		if n >= 4 && r.Intn(2) == 0 {
+			// a one-element array: the decoder is done at the closing bracket and drops an error that comes with it
+			body[0], body[1], body[n-2], body[n-1] = '[', '"', '"', ']'
+		}
+	}
+	// rare answers of the underlying reader: (0, nil) before, between and after the data; data together with a
+	// temporary error
+	empties, miderr := 0, 0
+	if r.Intn(5) == 0 {
+		empties = 1 + r.Intn(3)
+	}
+	if !bind && r.Intn(12) == 0 {
+		miderr = 3
+	}
 	for len(body) > 0 {
+		if empties > 0 && r.Intn(3) == 0 {
+			rq.Chunks = append(rq.Chunks, []byte{})
+		}
 		k := 1 + r.Intn(len(body))
 		if r.Intn(3) == 0 {
 			k = 1 + r.Intn(1+len(body)/4)
 		}
 		rq.Chunks = append(rq.Chunks, body[:k])
 		body = body[k:]
+	}
+	for ; empties > 0 && (len(rq.Chunks) == 0 || r.Intn(2) == 0); empties-- {
+		// at a random place: also first, last, and two in a row
+		at := r.Intn(len(rq.Chunks) + 1)
+		rq.Chunks = append(rq.Chunks[:at], append([][]byte{{}}, rq.Chunks[at:]...)...)
+	}
+	if miderr > 0 && len(rq.Chunks) > 1 {
+		rq.Errs = make([]int, len(rq.Chunks))
+		for i := range rq.Errs {
+			if r.Intn(miderr) == 0 {
+				rq.Errs[i] = 2
+			}
+		}
 	}
 	rq.Final = 1
 	if r.Intn(10) == 0 {
@@ -467,6 +644,8 @@ func c14GenReq(r *rand.Rand, L int64) c14Req {
 	if r.Intn(6) == 0 {
 		nreads = r.Intn(4)
 	}
+	// a consumer that goes on after an error (always when the reader hands out temporary errors)
+	rq.Persist = rq.Errs != nil || r.Intn(6) == 0
 	bytewise := r.Intn(8) == 0 // a byte-wise consumer reads the whole body one byte at a time
 	if bytewise {
 		nreads = int(n) + 3
@@ -520,7 +699,7 @@ func c14Gen(r *rand.Rand, tier string) []any {
 				ls = fmt.Sprintf("%d", L)
 			}
 		}
-		c := &c14Case{Limit: L, LimitStr: ls}
+		c := &c14Case{Limit: L, LimitStr: ls, Debug: r.Intn(3) == 0}
 		if r.Intn(4) == 0 {
 			// a second instance on one route: stricter, equal or more generous than the global one
 			c.Inner = []int64{L / 2, L - 1, L, L + 1, 2*L + 1, L + 7}[r.Intn(6)]
@@ -532,15 +711,16 @@ func c14Gen(r *rand.Rand, tier string) []any {
 		k := 1 + r.Intn(6)
 		for j := 0; j < k; j++ {
 			lim := L
-			rq := c14GenReq(r, lim)
+			bind := r.Intn(8) == 0
+			rq := c14GenReqK(r, lim, bind)
 			if c.InnerStr != "" && r.Intn(2) == 0 {
 				if r.Intn(2) == 0 {
-					rq = c14GenReq(r, c.Inner)
+					rq = c14GenReqK(r, c.Inner, bind)
 				}
 				rq.Inner = true
 			}
 			rq.Close = r.Intn(6) == 0
-			rq.Copy = r.Intn(5) == 0
+			rq.Copy = !bind && r.Intn(5) == 0
 			if r.Intn(8) == 0 {
 				n := c14GenReq(r, L)
 				n.Inner = c.InnerStr != "" && r.Intn(2) == 0
@@ -570,7 +750,52 @@ func c14Shrink(ci any) []any {
 		d.Inner, d.InnerStr = 0, ""
 		out = append(out, &d)
 	}
+	if c.Debug {
+		d := *c
+		d.Debug = false
+		out = append(out, &d)
+	}
 	for i, rq := range c.Reqs {
+		if rq.Persist || rq.Errs != nil {
+			d := *c
+			d.Reqs = append([]c14Req(nil), c.Reqs...)
+			nr := rq
+			if rq.Errs != nil {
+				nr.Errs = nil
+			} else {
+				nr.Persist = false
+			}
+			d.Reqs[i] = nr
+			out = append(out, &d)
+		}
+		if rq.Errs == nil {
+			// drop the empty answers of the reader, all at once or one at a time
+			var ne [][]byte
+			for _, ch := range rq.Chunks {
+				if len(ch) > 0 {
+					ne = append(ne, ch)
+				}
+			}
+			if len(ne) < len(rq.Chunks) {
+				d := *c
+				d.Reqs = append([]c14Req(nil), c.Reqs...)
+				nr := rq
+				nr.Chunks = ne
+				d.Reqs[i] = nr
+				out = append(out, &d)
+				for k, ch := range rq.Chunks {
+					if len(ch) == 0 && len(rq.Chunks)-len(ne) > 1 {
+						d := *c
+						d.Reqs = append([]c14Req(nil), c.Reqs...)
+						nr := rq
+						nr.Chunks = append(append([][]byte(nil), rq.Chunks[:k]...), rq.Chunks[k+1:]...)
+						d.Reqs[i] = nr
+						out = append(out, &d)
+						break
+					}
+				}
+			}
+		}
 		if rq.Nested != nil || rq.Close || rq.Inner {
 			d := *c
 			d.Reqs = append([]c14Req(nil), c.Reqs...)
@@ -599,7 +824,7 @@ func c14Shrink(ci any) []any {
 			d.Reqs[i] = nr
 			out = append(out, &d)
 		}
-		if len(rq.Chunks) > 1 {
+		if len(rq.Chunks) > 1 && rq.Errs == nil {
 			// merge all chunks
 			var all []byte
 			for _, ch := range rq.Chunks {
@@ -627,7 +852,7 @@ func c14Shrink(ci any) []any {
 func init() {
 	register(&Prop{
 		ID:             "C14",
-		Rule:           "random limits (0, 1..64 bytes, 1K/2K) x sequences of 1-6 requests through ONE BodyLimit instance; a quarter of the applications carry a second instance (stricter / equal / more generous) on one route; a sixth of the handlers close the body, an eighth serve a nested request on the same application between two of their own reads; body lengths {0, L-1, L, L+1, 10L, random}, random chunkings, EOF with or after the last chunk, declared length {exact, -1, half, around L}, random handler read sizes; non-trivial = a request that reads body bytes through a pooled reader that an earlier request of the same sequence already read bytes through; distinct = distinct model op lines",
+		Rule:           "random limits (0, 1..64 bytes, 1K/2K) x sequences of 1-6 requests through ONE BodyLimit instance; a quarter of the applications carry a second instance (stricter / equal / more generous) on one route; a sixth of the handlers close the body, an eighth serve a nested request on the same application between two of their own reads; body lengths {0, L-1, L, L+1, 10L, random}, random chunkings, EOF with or after the last chunk, a fifth of the bodies with answers (0, nil) of the underlying reader (first, in between, last, two in a row), a twelfth with data that comes together with a temporary error, declared length {exact, -1, half, around L}, random handler read sizes; a sixth of the handlers read on after an error, an eighth consume the body with the framework's binder (JSON string / one-element array; json.Decoder chooses the reads), a fifth with io.Copy; a third of the applications run with Echo.Debug; the response status is part of the observation (413 exactly when the handler hands back an over-limit error); non-trivial = a request that reads body bytes through a pooled reader that an earlier request of the same sequence already read bytes through; distinct = distinct model op lines",
 		New:            func() any { return &c14Case{} },
 		Gen:            c14Gen,
 		Run:            c14Run,
